@@ -576,7 +576,15 @@ static string stateKey() {
   auto q = [&](std::list<BusRequest*>& l) { for (BusRequest* r : l) { k.push_back((char)ridOfProxy(r)); k.push_back((char)VerifAccess::retries(r)); } k.push_back('|'); };
   q(VerifAccess::nextq(g_h)); q(VerifAccess::finq(g_h));
   k.push_back((char)ridOfProxy(VerifAccess::cur(g_h)));
-  for (Live& l : g_live) { k.push_back((char)l.rid); k += reqKey(l.real, l.kind); }
+  for (Live& l : g_live) {
+    // a finished request nobody will ever look at again (not queued, not current, not waited for) can only be deleted:
+    // its internals are left out of the key
+    bool pending = ridOfProxy(VerifAccess::cur(g_h)) == l.rid || l.proxy == nullptr;
+    for (BusRequest* r : VerifAccess::nextq(g_h)) if ((BusRequest*)l.proxy == r) pending = true;
+    bool waited = !l.del && g_coActive;
+    k.push_back((char)l.rid);
+    if (pending || waited) k += reqKey(l.real, l.kind); else k += "finished";
+  }
   k.push_back('|');
   // bus handler
   k.push_back((char)age(VerifAccess::lastPoll(g_bus))); k.push_back((char)VerifAccess::running(g_bus)); k.push_back((char)VerifAccess::grabOn(g_bus));
@@ -633,7 +641,9 @@ static void coMain() {
   result_t r = g_bus->scanAndWait((symbol_t)a, false, false);
   WorldObs y = observe();
   std::ostringstream out; bool have = g_bus->formatScanResult((symbol_t)a, false, &out);
-  ev("{\"e\":\"swret\",\"a\":" + ji(a) + ",\"res\":" + ji(r) + ",\"have\":" + ji(have) + ",\"text\":" + jtext(out.str()) + "," + diffFields(x, y) + "}");
+  string lens = "[";
+  if (y.results.count(a)) for (size_t i = 0; i < y.results[a].size(); i++) lens += (i ? "," : "") + ji((long)y.results[a][i].size());
+  ev("{\"e\":\"swret\",\"a\":" + ji(a) + ",\"res\":" + ji(r) + ",\"have\":" + ji(have) + ",\"entry\":" + ji((long)y.results.count(a)) + ",\"lens\":" + lens + "],\"text\":" + jtext(out.str()) + "," + diffFields(x, y) + "}");
   g_coActive = false; g_inCo = false;
 }
 static void coResume() { if (g_coActive && g_coWaiting) swapcontext(&g_mainCtx, &g_coCtx); }
